@@ -121,7 +121,8 @@ def run_task(task):
     if task.enumerate is not None:
         try:
             en = task.enumerate(int(os.environ.get("VERIF_SEED", "0") or 0))
-            res["enumeration"] = en
+            import json
+            res["enumeration"] = json.loads(json.dumps(en, default=repr))  # plain data only: the result crosses a process boundary and goes into the evidence
         except Exception as e:
             res["enumeration"] = {"name": task.name + ".bounded_enumeration", "bound": "crashed", "cases": 0, "failures": [],
                                   "error": f"{type(e).__name__}: {e}\n{traceback.format_exc(limit=6)}"}
